@@ -186,5 +186,30 @@ META["C08"] = {
     "technique": "Lean 4 no-fault theorems over checked (Except) re-writings of the parsers + structured malformed-input correspondence in all streams",
 }
 
+META["C04"] = {
+    "text": "Proof over decision models: sshswarm's server records the key of the authenticated permissions, so for every sequence of "
+            "query/sign steps by a peer that can only sign with keys it holds the recorded identity is a key it signed with (the "
+            "closure-variable defect of the unrepaired code is proved as a separate theorem about its model); quicswarm hands a "
+            "payload only to a connection whose proven key is the addressed identity and serves only allowed identities; "
+            "p2pkeswarm's source identity is the channel's accepted remote key, a Tell to identity X encrypts only on a channel "
+            "whose remote key is X, and a whitelisted-out key never becomes the remote key (corollaries of C05). Real swarms are "
+            "exercised by the secure oracle, including the SSH history with a patched client.",
+    "design_ref": "DESIGN.md section 5 C04", "note": _KE_NOTE + " TLS/SSH proof-of-possession is assumed, not modelled.",
+    "technique": "Lean 4 theorems over decision models (SSH auth loop, QUIC dial/serve, P2PKE channel corollaries) + scenario oracle on real swarms",
+}
+
+META["C01"] = {
+    "text": "Proof by induction over the nesting: for every stack of fragmenting and multiplexing layers (any depth, any channel ids, "
+            "any base MTU, any message-id counters) a Tell of a payload within MTU() is accepted, all base datagrams fit, the "
+            "receiving stack delivers exactly that payload once and nothing from any proper prefix of the datagrams, and a longer "
+            "payload is refused; the remaining layers contribute C10 (many messages/sources, any interleaving), C15 (channel "
+            "isolation), C02 (P2PKE authenticity, at-most-once) and C13/C14 (queue copy-on-enqueue, slot ownership). Real nestings "
+            "are compared datagram by datagram, and 14 real stacks including UDP/QUIC/SSH are checked against a ledger of told "
+            "(src, dst, payload) triples with sender buffers overwritten after Tell.",
+    "design_ref": "DESIGN.md section 5 C01",
+    "note": _NOTE + " Source/destination attribution and buffer non-interference on real transports are checked by the ledger oracle, not proved; QUIC/SSH/UDP internals are assumed.",
+    "technique": "Lean 4 structural induction over layer stacks composing per-layer theorems + lock-step correspondence on real nestings + ledger oracle on real stacks",
+}
+
 _PENDING = "check under construction in this build round; will be claimed once its model, theorems and correspondence stream pass on the unchanged tree"
 NOT_APPLICABLE = {("C%02d" % i): _PENDING for i in range(1, 21)}
